@@ -75,10 +75,11 @@ def build(config, tier):
         # add / sub / scalar * / scalar / / unary minus: column c of the result is the VECTOR operation on column c
         # (primitive arithmetic uninterpreted, plain crate) - entry-wise semantics then follow from the C01 lane
         # contracts of the vector operators
-        cw = ["let a = mk::<%s>(); let b = mk::<%s>(); let s: %s = vk::any();" % (N, N, t)]
+        cw = ["let a = mk::<%s>(); let b = mk::<%s>(); let s: %s = vk::any();" % (N, N, t),
+              "let (ra, rs, rm, rd, rn) = (a.add_mat%d(&b), a.sub_mat%d(&b), a.mul_scalar(s), a.div_scalar(s), -a);" % (n, n)]
         for c_ in range(n):
-            cw.append('check!(mk::same(a.add_mat%d(&b).col(%d), a.col(%d) + b.col(%d)) && mk::same(a.sub_mat%d(&b).col(%d), a.col(%d) - b.col(%d)), "add/sub column %d");' % (n, c_, c_, c_, n, c_, c_, c_, c_))
-            cw.append('check!(mk::same(a.mul_scalar(s).col(%d), a.col(%d) * s) && mk::same(a.div_scalar(s).col(%d), a.col(%d) / s) && mk::same((-a).col(%d), -a.col(%d)), "scalar ops / negation column %d");' % (c_, c_, c_, c_, c_, c_, c_))
+            cw.append('check!(mk::same(ra.col(%d), a.col(%d) + b.col(%d)) && mk::same(rs.col(%d), a.col(%d) - b.col(%d)), "add/sub column %d");' % (c_, c_, c_, c_, c_, c_, c_))
+            cw.append('check!(mk::same(rm.col(%d), a.col(%d) * s) && mk::same(rd.col(%d), a.col(%d) / s) && mk::same(rn.col(%d), -a.col(%d)), "scalar ops / negation column %d");' % (c_, c_, c_, c_, c_, c_, c_))
         obs.append(Ob("%s_columnwise_ops" % pre, PROP, "\n    ".join(cw), fn="%s::add_mat/sub_mat/mul_scalar/div_scalar/neg" % N, kind="lemma", solver="cadical",
                       stubs=["sse_uf", "arith_uf%d" % w], plain=True, clauses=2 * n, cls="forwarding",
                       desc="%s: add_mat, sub_mat, mul_scalar, div_scalar and unary minus act column by column as the vector operators (bit-for-bit, primitive arithmetic uninterpreted); entry-wise semantics follow from the C01 vector contracts" % N))
